@@ -80,6 +80,7 @@ pub struct Eng<S: USet> {
     pub cur_sig: String,
     pub quiet: bool,
     pub force_style: Option<u64>,
+    pub script_len: usize,
 }
 
 pub const NSLOTS: usize = 8;
@@ -161,6 +162,7 @@ impl<S: USet> Eng<S> {
             cur_sig: String::new(),
             quiet: false,
             force_style: None,
+            script_len: 600,
         };
         let m = match mode {
             Mode::Script => "script",
@@ -222,6 +224,7 @@ impl<S: USet> Eng<S> {
         }
         self.draw_style = self.rng.below(6);
         self.force_style = None;
+        self.script_len = 600;
     }
     pub fn finish(&mut self) {
         self.begin("end");
@@ -233,7 +236,7 @@ impl<S: USet> Eng<S> {
     }
     /// push scripted draws for the next operation on `slot`
     fn script(&mut self, slot: usize) -> Vec<u64> {
-        self.script_n(slot, 600)
+        self.script_n(slot, self.script_len)
     }
     pub fn script_n(&mut self, slot: usize, n: usize) -> Vec<u64> {
         if self.mode != Mode::Script {
